@@ -2,6 +2,10 @@
 
 #![allow(dead_code)]
 mod case;
+mod damage;
+mod errmode;
+mod forge;
+mod orphans;
 #[cfg(feature = "conc")]
 mod conc;
 mod decode;
@@ -13,7 +17,9 @@ mod keys;
 mod minimise;
 mod modes;
 mod monitors;
+mod procs;
 mod props;
+mod props_conc;
 mod rng;
 mod seqrun;
 mod sim;
